@@ -31,11 +31,12 @@ type Violation struct {
 type stopRun struct{}
 
 type heldSearch struct {
-	s      *sod.Search
-	expect map[int]bool
-	errExp bool
-	q      *Query
-	step   int
+	s       *sod.Search
+	deleted map[int]bool // matched objects deleted (even if re-created) since the evaluation
+	expect  map[int]bool
+	errExp  bool
+	q       *Query
+	step    int
 }
 
 // Seq is the single-client history machine.
@@ -489,7 +490,7 @@ func (s *Seq) opDelete(op *Op) {
 	if live && err != nil {
 		s.fail("read", "delete-failed", "Delete of live lid=%d failed: %v", op.Lid, err)
 	}
-	s.M.Delete(op.Lid)
+	s.modelDelete(op.Lid)
 	s.rejected = false
 	s.lightReadsOf("after-delete", []int{op.Lid})
 }
@@ -499,7 +500,7 @@ func (s *Seq) opDeleteAll() {
 		s.fail("read", "deleteall-failed", "DeleteAll failed: %v", err)
 	}
 	for _, l := range s.M.Lids() {
-		s.M.Delete(l)
+		s.modelDelete(l)
 	}
 	s.rejected = false
 	s.lightReads("after-deleteall")
@@ -617,4 +618,20 @@ func (s *Seq) readTag() string {
 		return "reject"
 	}
 	return "read"
+}
+
+// modelDelete removes lid from the model and remembers the deletion for
+// every search held at this moment.
+func (s *Seq) modelDelete(lid int) {
+	if _, live := s.M.Objs[lid]; live {
+		for _, h := range s.held {
+			if h.expect[lid] {
+				if h.deleted == nil {
+					h.deleted = map[int]bool{}
+				}
+				h.deleted[lid] = true
+			}
+		}
+	}
+	s.M.Delete(lid)
 }
